@@ -82,6 +82,17 @@ add("F82", "C09", "open", "years are applied before months through an intermedia
 add("F140", "C09", "fixed", "only one long and one short month name per language survived config loading: '12 subat 2020' (tr) evaluated to 2032",
     c09({"Literal": {"y": 2020, "m": 2, "d": 12, "spell": {"DMonY": [1, 0, 0]}}}, lang="tr"), commit="c2bb967")
 
+# ---- C11 -------------------------------------------------------------------------------------
+def tlit(h, m, s=None, form=0):
+    return {"h": h, "m": m, "s": s, "form": form, "mcase": 0}
+def c11(shape, default_tz=None):
+    return {"sub": "times", "case": {"shape": shape, "default_tz": default_tz, "zcase": 0, "zbits": 0}}
+add("F150", "C11", "fixed", "'10:30 - -2 hours' evaluated to 08:30: a negative duration was always subtracted from a time whatever the operator",
+    c11({"Arith": [tlit(10, 30), None, False, {"parts": [[2, 2]], "negative": True}]}), commit="a4a6767")
+add("F151", "C11", "open", "'10:30 EST to 12:45 EST' is an error: the difference rule fires in the same sweep in which the first zone is attached, before the second zone is attached to its time, and the orphan zone makes the line unparsable (rule firing order of the rewriting loop; no small safe repair)",
+    c11({"DiffZoned": [tlit(10, 30), tlit(12, 45), {"Abbr": "EST"}]}),
+    signature="T1 Z to T2 Z with the same explicit zone AND Err(No more token)")
+
 EXTRA = "tools/kf_extra.py"
 try:
     exec(open("/verif/" + EXTRA).read())
